@@ -81,7 +81,7 @@ def grammar_value(rng, ty):
     raise ValueError(ty)
 
 
-def grammar_tags(rng, cigar, n=None, repeats=True, forced=None):
+def grammar_tags(rng, cigar, n=None, repeats=True, forced=None, ds=True):
     """Optional fields drawn from everything the SAM/GAF tag grammar allows."""
     out = []
     n = rng.randint(0, 12) if n is None else n
@@ -95,9 +95,13 @@ def grammar_tags(rng, cigar, n=None, repeats=True, forced=None):
             tag = rng.choice("abcdefghijklmnopqrstuvwxyzXYZNM") + rng.choice("abcdefghijklmnopqrstuvwxyzXYZabcdefghijklmnopqrstuvwxyzXYZ012345")
             if tag in ("cg", "ds", "tp"):
                 tag = "zq"
+            while not repeats and tag in used:
+                tag = rng.choice("abcdefghijklmnopqrstuvwxyzXYZNM") + rng.choice("abcdefghijklmnopqrstuvwxyz")
+                if tag in ("cg", "ds", "tp"):
+                    tag = "zq"
         used.append(tag)
         out.append(f"{tag}:{ty}:{grammar_value(rng, ty)}")
-    if rng.random() < 0.3:
+    if ds and rng.random() < 0.3:
         out.insert(rng.randint(0, len(out)), f"ds:Z:{grammar_value(rng, 'Z')}")
     if rng.random() < 0.5:
         out.insert(0, f"tp:A:{rng.choice('PSI')}")
@@ -145,6 +149,8 @@ def make_record(g, rng, walk, name, offsets="any", tags="safe", mapq=None, cigar
         cols += safe_tags(rng, cg if cigar else None, want_tp=tp)
     elif tags == "grammar":
         cols += grammar_tags(rng, cg if cigar else None)
+    elif tags == "grammar_plain":  # full value grammar, but no repeated tags (K2) and no ds:Z (documented drop)
+        cols += grammar_tags(rng, cg if cigar else None, n=rng.randint(0, 6), repeats=False, ds=False)
     elif tags == "none":
         cols += [f"cg:Z:{cg}"] if cigar else []
     else:
